@@ -2,6 +2,7 @@ import Enc.Lemmas.Proto
 import Enc.Spec.Protobuf
 import Enc.Lemmas.ProtoVarint
 import Enc.Lemmas.ProtoWireVal
+import Enc.Lemmas.ProtoLiberal
 /-!
 # C12 — proto bytes are standard protobuf wire format, both ways
 Property theorems only.
@@ -74,5 +75,24 @@ theorem reference_decodes_marshal_partial (fs : Fields) (v : Val)
     (Spec.Protobuf.decode (.struct fs) (marshal (.struct fs) v)).map (Spec.Protobuf.canonical (.struct fs))
       = some (Spec.Protobuf.canonical (.struct fs) v) :=
   Lemmas.ProtoWire.decode_marshal_partial fs v hty hv hne hlen
+
+/-! ## … and conversely: every encoding the reference accepts (proofs in Enc/Lemmas/ProtoLiberal*.lean, 2.2 k lines) -/
+
+open Lemmas.ProtoWire in
+/-- **MAIN (both ways, second half).** For every message type of the universe and EVERY byte string the reference
+decoder accepts — fields in any order, non-minimal varints in tags, lengths and values, a later occurrence of a scalar
+overriding an earlier one, repeated fields accumulating, embedded messages split into several occurrences and merged,
+unknown fields — `Unmarshal` returns literally the same value. -/
+theorem unmarshal_of_reference_decode (fs : Fields) (hty : tyOK (.struct fs) = true) (b : Bytes) (v : Val)
+    (h : Spec.Protobuf.decode (.struct fs) b = some v) : unmarshal (.struct fs) b = .ok v :=
+  Lemmas.ProtoLiberal.unmarshal_of_decode fs hty b v h
+
+open Lemmas.ProtoWire Lemmas.ProtoLiberal in
+/-- exact characterisation of where the two decoders differ: only on inputs containing a record with field number 0
+(which the Go decoder skips as an unknown field and protobuf forbids); everywhere else they accept the same inputs
+with the same values and reject the same inputs -/
+theorem unmarshal_iff_reference_decode (fs : Fields) (hty : tyOK (.struct fs) = true) (b : Bytes) (v : Val)
+    (hz : ¬ ZeroNum fs b) : unmarshal (.struct fs) b = .ok v ↔ Spec.Protobuf.decode (.struct fs) b = some v :=
+  Lemmas.ProtoLiberal.unmarshal_iff_decode fs hty b v hz
 
 end Enc.Props.C12
